@@ -9,8 +9,7 @@ Every function returns `Except Err α`:
   `assert` (`assert`), arithmetic on `None` (`typeError`); `notImplemented`
   (`raise NotImplementedError`) is no longer produced: the code raises `AdmError` for unsupported pack
   types since commit 76cae51;
-* `Err.unmodelled` — the document uses a feature outside this model (a Matrix-typed pack or
-  channel); `Err.noOracle` — the allocator oracle has no entry for this call.
+* `Err.noOracle` — the allocator oracle has no entry for this call (never with a recorded oracle).
 
 The functions are transliterations in the order the Python runs them.  The pack allocator
 (`pack_allocation.allocate_packs`, property C07) is abstract: an oracle gives, for the n-th call,
@@ -26,14 +25,17 @@ inductive AdmKind
   | objloop | leafparam | packchtype | subpacktype | packloop | diamond | objfreq | cartesian
   | hoablocks | hoafreq | hoaeq | hoaorder | hoadegree | hoadup | hoaempty | paramshare | parampath
   | nmxinput | nmxoutput | nmxencode | v2ref | tracknone | trackboth
+  | coeffnoinput | mxchblocks | mxchparam | mxnoio | mxinmatrix | mxoutmatrix | mxencnotdec | mxdecone
+  | mxencnonmatrix | mxencnonenc | mxsubpack | mxinputch | mxoutmissing | mxoutdup | mxoutnotin | mxoutuncovered
   | streamboth | streamnone | tfnostream | compnotgroup | compmulti
   | noindex | nopack | streamnochannel | conflicting | ambiguous | unsupportedtype
+  | avsnotin | avsdup | avsboth | avsmulti
   deriving DecidableEq, Repr
 
 inductive IntKind | attrNone | unpack | index | assert | typeError | notImplemented
   deriving DecidableEq, Repr
 
-inductive Err | adm (k : AdmKind) | internal (k : IntKind) | unmodelled | noOracle
+inductive Err | adm (k : AdmKind) | internal (k : IntKind) | noOracle
   deriving DecidableEq, Repr
 
 abbrev R := Except Err
@@ -98,10 +100,13 @@ def packChannels (d : Doc) (p : Nat) : List Nat := (packPathsChannels d p).map (
 /-- `utils.pack_format_packs` (same packs as the last elements of the paths, same order). -/
 def packPacks (d : Doc) (p : Nat) : List Nat := (packPaths d p).map (fun path => path.getLastD p)
 
-/-! ### `ADM.validate()` — element validators (`AudioStreamFormat.validate`, `AudioTrackFormat.validate`);
-attrs type validators are outside the model. -/
+/-! ### `ADM.validate()` — element validators (`MatrixCoefficient.validate` reached through
+`AudioChannelFormat.validate`, `AudioStreamFormat.validate`, `AudioTrackFormat.validate`, in the order of
+`ADM.elements`); attrs type validators are outside the model. -/
 
 def validateElements (d : Doc) : R Unit := do
+  forE d.channels (fun c => forE c.blocks (fun b => forE b.coeffs (fun co =>
+    if co.input.isNone then .error (.adm .coeffnoinput) else .ok ())))
   forE d.streams (fun s =>
     if s.pack.isSome && s.channel.isSome then .error (.adm .streamboth)
     else if s.pack.isNone && s.channel.isNone then .error (.adm .streamnone)
@@ -272,13 +277,126 @@ def validateHoaParams (d : Doc) : R Unit :=
     if (packPathsChannels d p).isEmpty then .error (.adm .hoaempty)
     else hoaParams d (packPathsChannels d p))
 
-/-- `_validate_matrix_types` on documents without Matrix-typed elements: `_validate_non_matrix_pack`. -/
-def validateNonMatrixPacks (d : Doc) : R Unit :=
-  forE d.packs (fun p =>
-    if p.input.isSome then .error (.adm .nmxinput)
-    else if p.output.isSome then .error (.adm .nmxoutput)
-    else if !p.encodePacks.isEmpty then .error (.adm .nmxencode)
-    else .ok ())
+/-- `matrix.Type` -/
+inductive MType | direct | encode | decode
+  deriving DecidableEq, Repr
+
+/-- `matrix.type_of(apf)`; the final `assert False` when neither reference is present -/
+def typeOf (p : Pack) : R MType :=
+  match p.input, p.output with
+  | some _, some _ => .ok .direct
+  | some _, none => .ok .encode
+  | none, some _ => .ok .decode
+  | none, none => .error (.internal .assert)
+
+/-- `matrix.input_pack_format(apf)`: `[encode_apf] = apf.encodePackFormats` for a decode pack, else
+`apf.inputPackFormat` (using `None` as a pack afterwards is an AttributeError) -/
+def inputPackOf (p : Pack) : R Nat :=
+  match typeOf p with
+  | .error e => .error e
+  | .ok .decode => unpack1 p.encodePacks
+  | .ok _ => match p.input with
+    | some i => .ok i
+    | none => .error (.internal .attrNone)
+
+/-- `_validate_matrix_channel` (rtime/duration are unset in modelled documents) -/
+def validateMatrixChannel (c : Channel) : R Unit :=
+  if c.blocks.length != 1 then .error (.adm .mxchblocks)
+  else match unpack1 c.blocks with
+    | .error e => .error e
+    | .ok b => forE b.coeffs (fun co => if co.badParam then .error (.adm .mxchparam) else .ok ())
+
+/-- body of the `for apf_encode in apf.encodePackFormats` loop of `_validate_matrix_apf_references`
+(with the guard added in commit 592dfc9 before `matrix.type_of(apf_encode)`) -/
+def validateEncodeRef (d : Doc) (e : Nat) : R Unit :=
+  let q := d.pack e
+  if q.type != .matrix then .error (.adm .mxencnonmatrix)
+  else if q.input.isNone && q.output.isNone then .error (.adm .mxnoio)
+  else match typeOf q with
+    | .error err => .error err
+    | .ok t => if t != .encode then .error (.adm .mxencnonenc) else .ok ()
+
+/-- `ref is not None and ref.type == TypeDefinition.Matrix` -/
+def isMatrixRef (d : Doc) (o : Option Nat) : Bool :=
+  match o with
+  | some i => (d.pack i).type == TypeDef.matrix
+  | none => false
+
+/-- `_validate_matrix_apf_references` -/
+def validateMatrixApfRefs (d : Doc) (p : Pack) : R Unit :=
+  if p.input.isNone && p.output.isNone then .error (.adm .mxnoio)
+  else match typeOf p with
+    | .error e => .error e
+    | .ok t =>
+      if isMatrixRef d p.input then .error (.adm .mxinmatrix)
+      else if isMatrixRef d p.output then .error (.adm .mxoutmatrix)
+      else if t != MType.decode && !p.encodePacks.isEmpty then .error (.adm .mxencnotdec)
+      else if t == MType.decode && p.encodePacks.length != 1 then .error (.adm .mxdecone)
+      else match forE p.encodePacks (validateEncodeRef d) with
+        | .error e => .error e
+        | .ok _ => if !p.packs.isEmpty then .error (.adm .mxsubpack) else .ok ()
+
+/-- the coefficient loop of `_validate_matrix_inputChannelFormat_references` for one matrix channel -/
+def validateInputRefsChannel (d : Doc) (inputChannels : List Nat) (mc : Nat) : R Unit :=
+  match unpack1 (d.chan mc).blocks with
+  | .error e => .error e
+  | .ok b => forE b.coeffs (fun co =>
+      match co.input with
+      | none => .error (.internal .attrNone)          -- `input_channel.id` in the message (None is never in the list)
+      | some c => if inputChannels.contains c then .ok () else .error (.adm .mxinputch))
+
+/-- `_validate_matrix_inputChannelFormat_references` -/
+def validateMatrixInputRefs (d : Doc) (pi : Nat) : R Unit :=
+  match inputPackOf (d.pack pi) with
+  | .error e => .error e
+  | .ok ip => forE (packChannels d pi) (validateInputRefsChannel d (packChannels d ip))
+
+/-- body of the first loop of `_validate_matrix_outputChannelFormat_references`; state = `output_channels` -/
+def outputRefsStep (d : Doc) (outPackChannels : List Nat) (outs : List Nat) (mc : Nat) : R (List Nat) :=
+  match unpack1 (d.chan mc).blocks with
+  | .error e => .error e
+  | .ok b => match b.outCh with
+    | none => .error (.adm .mxoutmissing)
+    | some oc =>
+      if outs.contains oc then .error (.adm .mxoutdup)
+      else if !outPackChannels.contains oc then .error (.adm .mxoutnotin)
+      else .ok (outs ++ [oc])
+
+/-- `_validate_matrix_outputChannelFormat_references` -/
+def validateMatrixOutputRefs (d : Doc) (pi : Nat) : R Unit :=
+  match (d.pack pi).output with
+  | none => .error (.internal .attrNone)               -- `pack_format_channels(None)`
+  | some o =>
+    match foldE (packChannels d pi) [] (outputRefsStep d (packChannels d o)) with
+    | .error e => .error e
+    | .ok outs => forE (packChannels d o) (fun c =>
+        if outs.contains c then .ok () else .error (.adm .mxoutuncovered))
+
+/-- `_validate_non_matrix_pack` -/
+def validateNonMatrixPack (p : Pack) : R Unit :=
+  if p.input.isSome then .error (.adm .nmxinput)
+  else if p.output.isSome then .error (.adm .nmxoutput)
+  else if !p.encodePacks.isEmpty then .error (.adm .nmxencode)
+  else .ok ()
+
+/-- body of the pack loop of `_validate_matrix_types` -/
+def validateMatrixPack (d : Doc) (pi : Nat) : R Unit :=
+  let p := d.pack pi
+  if p.type == .matrix then
+    match validateMatrixApfRefs d p with
+    | .error e => .error e
+    | .ok _ => match validateMatrixInputRefs d pi with
+      | .error e => .error e
+      | .ok _ => match typeOf p with
+        | .error e => .error e
+        | .ok t => if t == .decode || t == .direct then validateMatrixOutputRefs d pi else .ok ()
+  else validateNonMatrixPack p
+
+/-- `_validate_matrix_types` -/
+def validateMatrixTypes (d : Doc) : R Unit :=
+  match forE d.channels (fun c => if c.type == .matrix then validateMatrixChannel c else .ok ()) with
+  | .error e => .error e
+  | .ok _ => forE (List.range d.packs.length) (validateMatrixPack d)
 
 /-- `_validate_track_channel_ref_only_in_v2` -/
 def validateV2Refs (d : Doc) : R Unit :=
@@ -291,11 +409,57 @@ def validateTrackOrChannel (d : Doc) : R Unit :=
     else if t.trackFormat.isSome && t.channel.isSome then .error (.adm .trackboth)
     else .ok ())
 
-def hasMatrix (d : Doc) : Bool :=
-  d.packs.any (fun p => p.type == .matrix) || d.channels.any (fun c => c.type == .matrix)
+/-! ### `_validate_avs_references` -/
 
-/-- `validate_structure` (without `_validate_avs_references`: programmes/contents of modelled documents
-reference no alternativeValueSets, for which that function does nothing). -/
+/-- `_find_object_for_avs(avs, objects)` -/
+def findObjectForAvs (d : Doc) (a : Nat) (objs : List Nat) : Option Nat :=
+  objs.find? (fun o => (d.obj o).avs.contains a)
+
+/-- `_validate_avs_references_contained` -/
+def validateAvsContained (d : Doc) (refs : List Nat) (objs : List Nat) : R Unit :=
+  forE refs (fun a => if (findObjectForAvs d a objs).isNone then .error (.adm .avsnotin) else .ok ())
+
+/-- `[object_path[-1] for root_object in roots for object_path in object_paths_from(root_object)]` -/
+def objsBelow (d : Doc) (roots : List Nat) : List Nat :=
+  roots.flatMap (fun r => (objectPaths d r).map (fun path => path.getLastD 0))
+
+/-- `content_objects` -/
+def contentObjects (d : Doc) (c : Nat) : List Nat := objsBelow d (d.content c).objects
+
+/-- `programme_objects` -/
+def programmeObjects (d : Doc) (P : Programme) : List Nat := P.contents.flatMap (contentObjects d)
+
+/-- the `(referring_object, avs)` pairs `_validate_avs_references_conflict` iterates over, in order; the
+referring object is `none` for the programme and `some c` for content `c` -/
+def avsPairs (d : Doc) (P : Programme) : List (Option Nat × Nat) :=
+  P.avs.map (fun a => (none, a)) ++ P.contents.flatMap (fun c => (d.content c).avs.map (fun a => (some c, a)))
+
+/-- loop body of `_validate_avs_references_conflict`; `seen` = `references_by_object_id` as an association list -/
+def avsConflictStep (d : Doc) (objs : List Nat) (seen : List (Nat × Option Nat × Nat)) (x : Option Nat × Nat) :
+    R (List (Nat × Option Nat × Nat)) :=
+  match findObjectForAvs d x.2 objs with
+  | none => .error (.internal .assert)               -- `assert obj is not None  # already checked`
+  | some o => match seen.find? (fun e => e.1 == o) with
+    | some e =>
+      if e.2.2 == x.2 && e.2.1 == x.1 then .error (.adm .avsdup)
+      else if e.2.2 == x.2 then .error (.adm .avsboth)
+      else .error (.adm .avsmulti)
+    | none => .ok ((o, x.1, x.2) :: seen)
+
+/-- body of the programme loop of `_validate_avs_references` -/
+def validateAvsProgramme (d : Doc) (P : Programme) : R Unit :=
+  match validateAvsContained d P.avs (programmeObjects d P) with
+  | .error e => .error e
+  | .ok _ => match forE P.contents (fun c => validateAvsContained d (d.content c).avs (contentObjects d c)) with
+    | .error e => .error e
+    | .ok _ => match foldE (avsPairs d P) [] (avsConflictStep d (programmeObjects d P)) with
+      | .error e => .error e
+      | .ok _ => .ok ()
+
+/-- `_validate_avs_references` -/
+def validateAvsReferences (d : Doc) : R Unit := forE d.programmes (validateAvsProgramme d)
+
+/-- `validate_structure` -/
 def validateStructure (d : Doc) : R Unit := do
   validateElements d
   validateObjectLoops d
@@ -307,9 +471,10 @@ def validateStructure (d : Doc) : R Unit := do
   validateHoaChannels d
   validateHoaOrderDegree d
   validateHoaParams d
-  validateNonMatrixPacks d
+  validateMatrixTypes d
   validateV2Refs d
   validateTrackOrChannel d
+  validateAvsReferences d
 
 /-! ### selection -/
 
@@ -484,34 +649,151 @@ def selectedOf (d : Doc) (st : State) : Option (List Nat) × List Nat × Nat :=
 def packFormatPath (d : Doc) (p : Nat) (c : Nat) : R (List Nat) :=
   unpack1 ((packPaths d p).filter (fun path => (d.pack (path.getLastD p)).channels.contains c))
 
-/-- `_get_rendering_items` for one allocated pack `p` (non-matrix: `output_pack = root_pack`, the channel
-allocation lists the channels of the pattern): number of rendering items produced -/
-def renderingItems (d : Doc) (p : Nat) : R Nat :=
-  let chans := packChannels d p
-  match (d.pack p).type with
+/-- `_get_pack_format_path` for a channel of the channel allocation, which is `None` when a matrix block has no
+`outputChannelFormat` (`None` is in no pack: the unpacking fails) -/
+def packFormatPathOpt (d : Doc) (p : Nat) (oc : Option Nat) : R (List Nat × Nat) :=
+  match oc with
+  | none => .error (.internal .unpack)
+  | some c => match packFormatPath d p c with
+    | .ok path => .ok (path, c)
+    | .error e => .error e
+
+/-- the loop of `_get_alternativeValueSet`: `selected_avs` over the referenced AVSs that belong to the object -/
+def avsAssertLoop (oavs : List Nat) : List Nat → Option Nat → R Unit
+  | [], _ => .ok ()
+  | a :: rest, sel =>
+    if oavs.contains a then
+      match sel with
+      | none => avsAssertLoop oavs rest (some a)
+      | some s => if s == a then avsAssertLoop oavs rest (some a)
+                  else .error (.internal .assert)       -- "more than one active alternativeValueSet"
+    else avsAssertLoop oavs rest sel
+
+/-- `_get_alternativeValueSet(state)` (called from `_get_extra_data` for every rendering item); only whether it
+raises matters here -/
+def avsSelected (d : Doc) (st : State) : R Unit :=
+  match st.objects with
+  | none => .ok ()
+  | some path =>
+    avsAssertLoop (d.obj (path.getLastD 0)).avs
+      ((match st.prog with | some p => (d.programme p).avs | none => []) ++
+       (match st.content with | some c => (d.content c).avs | none => [])) none
+
+/-- per-channel step of `_get_RenderingItems_Objects/DirectSpeakers`: `_select_single_channel`
+(`_get_pack_format_path`), then `_get_extra_data` (whose only raising part is `extra`) -/
+def singleChannel (d : Doc) (extra : R Unit) (o : Nat) (oc : Option Nat) : R (List Nat × Nat) :=
+  match packFormatPathOpt d o oc with
+  | .error e => .error e
+  | .ok x => match extra with
+    | .error e => .error e
+    | .ok _ => .ok x
+
+/-- `_get_rendering_items(state)` for `state.audioPackFormat = o` and the channels of
+`state.channel_allocation`: number of rendering items produced; `extra` = `_get_alternativeValueSet(state)` -/
+def itemsFor (d : Doc) (extra : R Unit) (o : Nat) (chans : List (Option Nat)) : R Nat :=
+  match (d.pack o).type with
   | .objects | .directSpeakers =>
-    match mapE chans (packFormatPath d p) with
+    match mapE chans (singleChannel d extra o) with
     | .ok _ => .ok chans.length
     | .error e => .error e
   | .hoa =>
-    match mapE chans (fun c => match packFormatPath d p c with
-        | .ok path => .ok (path, c)
-        | .error e => .error e) with
+    match mapE chans (packFormatPathOpt d o) with
     | .error e => .error e
     | .ok ppc =>
       match hoaParams d ppc with
       | .error e => .error e
       | .ok _ => match first ppc with          -- `_get_extra_data`: get_single_param(absoluteDistance)
-        | .ok _ => .ok 1
+        | .ok _ => (match extra with
+          | .ok _ => .ok 1
+          | .error e => .error e)
         | .error e => .error e
   | _ => .error (.adm .unsupportedtype)      -- `AdmError` since commit 76cae51 (was NotImplementedError)
 
+/-- one `OutputAllocationPack` of `_PackAllocator.packs`: root pack, Regular or Matrix allocation pack, and the
+channel formats of its `AllocationChannel`s -/
+structure Pattern where
+  root : Nat
+  isMatrix : Bool
+  channels : List Nat
+  deriving Repr, Inhabited
+
+/-- `wrap_matrix_pack`, first `if`: direct/decode use and pre-applied use -/
+def wrapFirst (d : Doc) (pi : Nat) (t : MType) : R (List Pattern) :=
+  if t == .direct || t == .decode then
+    match inputPackOf (d.pack pi) with
+    | .error e => .error e
+    | .ok ip => .ok [⟨pi, true, packChannels d ip⟩, ⟨pi, true, packChannels d pi⟩]
+  else .ok []
+
+/-- `wrap_matrix_pack`, second `if`: encode-then-decode use (`[encode_pack] = ...`, `encode_pack.inputPackFormat`) -/
+def wrapSecond (d : Doc) (pi : Nat) (t : MType) : R (List Pattern) :=
+  if t == .decode then
+    match unpack1 (d.pack pi).encodePacks with
+    | .error e => .error e
+    | .ok e => match (d.pack e).input with
+      | none => .error (.internal .attrNone)           -- `pack_format_paths_from(None)`
+      | some ii => .ok [⟨pi, true, packChannels d ii⟩]
+  else .ok []
+
+/-- `wrap_matrix_pack` -/
+def wrapMatrixPack (d : Doc) (pi : Nat) : R (List Pattern) :=
+  match typeOf (d.pack pi) with
+  | .error e => .error e
+  | .ok t => match wrapFirst d pi t with
+    | .error e => .error e
+    | .ok l1 => match wrapSecond d pi t with
+      | .error e => .error e
+      | .ok l2 => .ok (l1 ++ l2)
+
+/-- body of the loop of `get_wrapped_packs` (`wrap_non_matrix_pack` / `wrap_matrix_pack`) -/
+def patternsOf (d : Doc) (pi : Nat) : R (List Pattern) :=
+  if (d.pack pi).type != .matrix then .ok [⟨pi, false, packChannels d pi⟩] else wrapMatrixPack d pi
+
+/-- `_PackAllocator.__init__`: `self.packs = list(self.get_wrapped_packs(adm))` -/
+def patterns (d : Doc) : R (List Pattern) :=
+  match mapE (List.range d.packs.length) (patternsOf d) with
+  | .ok ls => .ok ls.flatten
+  | .error e => .error e
+
+/-- `MatrixAllocationPack.output_channel_allocation.get_track_spec(channel_format)`: found among the allocated
+input channels, or `[block_format] = channel_format.audioBlockFormats` and recursion into the coefficients'
+`inputChannelFormat`s (fuel: the depth is at most 2 on validated documents) -/
+def matrixTrackSpec (d : Doc) (alloc : List Nat) : Nat → Nat → R Unit
+  | 0, _ => .ok ()
+  | f + 1, c =>
+    if alloc.contains c then .ok ()
+    else match unpack1 (d.chan c).blocks with
+      | .error e => .error e
+      | .ok b => forE b.coeffs (fun co =>
+          match co.input with
+          | none => .error (.internal .attrNone)        -- `None.audioBlockFormats`
+          | some c' => matrixTrackSpec d alloc f c')
+
+/-- `MatrixAllocationPack.output_channel_allocation.get_channel_allocation(matrix_channel)` -/
+def matrixChannelAllocation (d : Doc) (pat : Pattern) (mc : Nat) : R (Option Nat) :=
+  match unpack1 (d.chan mc).blocks with
+  | .error e => .error e
+  | .ok b => match matrixTrackSpec d pat.channels (d.channels.length + 2) mc with
+    | .error e => .error e
+    | .ok _ => .ok b.outCh
+
+/-- one allocated pack of the unique solution: `output_pack`, `output_channel_allocation(...)`, then
+`_get_rendering_items` -/
+def renderingItems (d : Doc) (extra : R Unit) (pat : Pattern) : R Nat :=
+  if pat.isMatrix then
+    match mapE (d.pack pat.root).channels (matrixChannelAllocation d pat) with
+    | .error e => .error e
+    | .ok outs => match (d.pack pat.root).output with
+      | none => .error (.internal .attrNone)            -- `state.audioPackFormat.type`
+      | some o => itemsFor d extra o outs
+  else itemsFor d extra pat.root (pat.channels.map some)
+
 /-- allocator oracle: n-th `allocate_packs` call ↦ the first (at most two) solutions, each the list of
-indices into `_PackAllocator.packs` (= pack indices for non-matrix documents) -/
+indices into `_PackAllocator.packs` (`patterns d`) -/
 abbrev Oracle := Nat → Option (List (List Nat))
 
 /-- `_PackAllocator.select_pack_mapping` followed by `_get_rendering_items` for each yielded state -/
-def processState (d : Doc) (oracle : Oracle) (i : Nat) (st : State) : R Nat :=
+def processState (d : Doc) (pats : List Pattern) (oracle : Oracle) (i : Nat) (st : State) : R Nat :=
   let (packs, tracks, nSilent) := selectedOf d st
   match forE tracks (validateSelectedTrack d) with
   | .error e => .error e
@@ -523,19 +805,20 @@ def processState (d : Doc) (oracle : Oracle) (i : Nat) (st : State) : R Nat :=
       | some [sol] =>
         match mapE tracks (trackSpec d) with
         | .error e => .error e
-        | .ok _ => sumE sol 0 (fun _ p => renderingItems d p)
+        | .ok _ => sumE sol 0 (fun _ k => renderingItems d (avsSelected d st) (pats.getD k default))
       | some _ => raiseError d packs tracks nSilent .ambiguous
 
 /-- `select_rendering_items(adm, audio_programme, selected_complementary_objects)`: number of items -/
 def selectItems (d : Doc) (prog : Option Nat) (sel : List Nat) (oracle : Oracle) : R Nat :=
-  if hasMatrix d then .error .unmodelled
-  else match validateStructure d with
+  match validateStructure d with
+  | .error e => .error e
+  | .ok _ => match patterns d with
     | .error e => .error e
-    | .ok _ => match selectComplementary d sel with
+    | .ok pats => match selectComplementary d sel with
       | .error e => .error e
       | .ok ignore => match selectStates d prog with
         | .error e => .error e
-        | .ok states => sumE (states.filter (keepState ignore)) 0 (processState d oracle)
+        | .ok states => sumE (states.filter (keepState ignore)) 0 (processState d pats oracle)
 
 /-- unique-path property that `_get_pack_format_path` relies on: under every pack each reachable channel
 is found on exactly one path -/
